@@ -7,7 +7,7 @@
    gadget_err = gadget_noise - gadget_trunc (explicit), gadget_noise = sum_{row,ci} digit (x) e, gadget_trunc = contribution of the key limbs
    that the product of digit di drops (zero for dsize <= 2), gadget_int = the multiple of 2^P. *)
 From PV Require Import Base.MachineInt Model.Znx Model.Limbs Model.Flat Model.Ring Model.Poly Model.DftAbs Model.Gadget Model.GadgetOracle Model.C03Run.
-From PV Require Import Model.GadgetSpec Proofs.C07Dft Proofs.C07Ring Proofs.GadgetDecomp Proofs.GadgetPhase Proofs.GadgetBound Proofs.C03Phase Proofs.C04Phase Model.GadgetEnc Proofs.GadgetEnc Proofs.GadgetNorm.
+From PV Require Import Model.GadgetSpec Proofs.C07Dft Proofs.C07Ring Proofs.GadgetDecomp Proofs.GadgetPhase Proofs.GadgetBound Proofs.C03Phase Proofs.C04Phase Model.GadgetEnc Proofs.GadgetEnc Proofs.GadgetNorm Model.GadgetDerived Proofs.GadgetSigma Proofs.GadgetShape Proofs.GadgetDerived.
 Open Scope Z_scope.
 
 (* (1) limbs grouped by (step = dsize, offset = dsize-di-1) recombine to the value: pure index arithmetic, all shapes *)
@@ -499,6 +499,343 @@ Theorem C03_glwe_keyswitch_phase_final :
 Proof. exact C03_glwe_keyswitch_phase_final_lemma. Qed.
 Print Assumptions C03_glwe_keyswitch_phase_final.
 
+(* (7) the exact Galois automorphism sigmaE g (Model/GadgetDerived.v) = Poly.sigma w g on small coefficients *)
+Theorem C03_sigmaE_sigma :
+  forall (w g : Z) (a : list Z), 1 <= w -> (forall x : Z, In x a -> Z.abs x < 2 ^ (w - 1)) -> sigma w g a = sigmaE g a.
+Proof. exact sigmaE_sigma. Qed.
+Print Assumptions C03_sigmaE_sigma.
+
+(* (7) sigma_g a (X^g) = a (X) on the exact extension, gcd g (2n) = 1 *)
+Theorem C03_ext_sigmaE :
+  forall (g : Z) (a : list Z) (k : Z), Z.gcd g (2 * Z.of_nat (length a)) = 1 -> (0 < length a)%nat -> ext' (sigmaE g a) (k * g) = ext' a k.
+Proof. exact ext'_sigmaE. Qed.
+Print Assumptions C03_ext_sigmaE.
+
+Theorem C03_sigmaE_unique :
+  forall (g : Z) (a c : list Z),
+    Z.gcd g (2 * Z.of_nat (length a)) = 1 ->
+    (0 < length a)%nat -> length c = length a -> (forall k : Z, ext' c (k * g) = ext' a k) -> c = sigmaE g a.
+Proof. exact sigmaE_unique. Qed.
+Print Assumptions C03_sigmaE_unique.
+
+(* (7) ring-homomorphism facts, all PROVED *)
+Theorem C03_sigmaE_len :
+  forall (n : nat) (g : Z) (a : list Z), length a = n -> length (sigmaE g a) = n.
+Proof. exact sigmaE_len. Qed.
+Print Assumptions C03_sigmaE_len.
+
+Theorem C03_sigmaE_padd :
+  forall (n : nat) (g : Z),
+    (0 < n)%nat ->
+    Z.gcd g (2 * Z.of_nat n) = 1 -> forall a b : list Z, length a = n -> length b = n -> sigmaE g (padd a b) = padd (sigmaE g a) (sigmaE g b).
+Proof. exact sigmaE_padd. Qed.
+Print Assumptions C03_sigmaE_padd.
+
+Theorem C03_sigmaE_psub :
+  forall (n : nat) (g : Z),
+    (0 < n)%nat ->
+    Z.gcd g (2 * Z.of_nat n) = 1 -> forall a b : list Z, length a = n -> length b = n -> sigmaE g (psub a b) = psub (sigmaE g a) (sigmaE g b).
+Proof. exact sigmaE_psub. Qed.
+Print Assumptions C03_sigmaE_psub.
+
+Theorem C03_sigmaE_pneg :
+  forall (n : nat) (g : Z),
+    (0 < n)%nat -> Z.gcd g (2 * Z.of_nat n) = 1 -> forall a : list Z, length a = n -> sigmaE g (pneg a) = pneg (sigmaE g a).
+Proof. exact sigmaE_pneg. Qed.
+Print Assumptions C03_sigmaE_pneg.
+
+Theorem C03_sigmaE_pscale :
+  forall (n : nat) (g : Z),
+    (0 < n)%nat -> Z.gcd g (2 * Z.of_nat n) = 1 -> forall (c : Z) (a : list Z), length a = n -> sigmaE g (pscale c a) = pscale c (sigmaE g a).
+Proof. exact sigmaE_pscale. Qed.
+Print Assumptions C03_sigmaE_pscale.
+
+Theorem C03_sigmaE_pmul :
+  forall (n : nat) (g : Z),
+    (0 < n)%nat ->
+    Z.gcd g (2 * Z.of_nat n) = 1 -> forall a b : list Z, length a = n -> length b = n -> sigmaE g (pmul a b) = pmul (sigmaE g a) (sigmaE g b).
+Proof. exact sigmaE_pmul. Qed.
+Print Assumptions C03_sigmaE_pmul.
+
+(* (7) the sup norm is invariant: the envelope is unchanged *)
+Theorem C03_sigmaE_pnorm :
+  forall (g : Z) (a : list Z), Z.gcd g (Z.of_nat (length a)) = 1 -> pnorm (sigmaE g a) = pnorm a.
+Proof. exact sigmaE_pnorm. Qed.
+Print Assumptions C03_sigmaE_pnorm.
+
+Theorem C03_sigmaE_compose :
+  forall a : list Z,
+    (0 < length a)%nat ->
+    forall g h : Z, Z.gcd g (2 * Z.of_nat (length a)) = 1 -> Z.gcd h (2 * Z.of_nat (length a)) = 1 -> sigmaE g (sigmaE h a) = sigmaE (g * h) a.
+Proof. exact sigmaE_compose. Qed.
+Print Assumptions C03_sigmaE_compose.
+
+Theorem C03_sigmaE_inverse :
+  forall a : list Z,
+    (0 < length a)%nat ->
+    forall g h : Z, Z.gcd g (2 * Z.of_nat (length a)) = 1 -> (g * h) mod (2 * Z.of_nat (length a)) = 1 -> sigmaE h (sigmaE g a) = a.
+Proof. exact sigmaE_inverse. Qed.
+Print Assumptions C03_sigmaE_inverse.
+
+(* (7) C03_automorphism_phase with sg := sigmaE g: no ring-homomorphism hypothesis left *)
+Theorem C03_automorphism_phase_sigma :
+  forall (n : nat) (g P b : Z) (rin cols_out msize a_size dsize dnum : nat) (ct res0 : cols_t) (K : pmat) (Sk St s_in : nat -> list Z)
+      (e I : nat -> nat -> list Z),
+    Z.gcd g (2 * Z.of_nat n) = 1 ->
+    wf_cols n (S rin) a_size ct ->
+    wf_pmat_in n (dnum * rin) (msize * cols_out) K ->
+    (1 <= n)%nat ->
+    (1 <= cols_out)%nat ->
+    (1 <= dsize)%nat ->
+    (dsize - 2 <= msize)%nat ->
+    (forall co : nat, length (Sk co) = n) ->
+    Sk 0%nat = pone n ->
+    (forall co : nat, St co = sigmaE g (Sk co)) ->
+    (forall ci : nat, length (s_in ci) = n) ->
+    (forall row ci : nat, length (e row ci) = n) ->
+    (forall row ci : nat, length (I row ci) = n) ->
+    0 <= b ->
+    Z.of_nat msize * b <= P ->
+    Z.of_nat dnum * Z.of_nat dsize * b <= P ->
+    key_rows_ok P b n rin cols_out msize dsize dnum K Sk s_in e I ->
+    exists ks : cols_t,
+      keyswitch_internal n cols_out msize res0 ct a_size dsize dnum msize K = Some ks /\
+      wf_cols n cols_out msize ks /\
+      phase_f P b n cols_out msize (limbs_of (map (map (sigmaE g)) ks)) St =
+      padd
+        (padd
+           (sigmaE g
+              (padd (pval P b n (acol n ct 0) (Nat.min msize a_size))
+                 (psumf n (fun ci : nat => pmul (pval_used P b n a_size dsize dnum (acol n (tl ct)) ci) (s_in ci)) rin)))
+           (sigmaE g (gadget_err P b n rin cols_out msize dsize dnum (acol n (tl ct)) K Sk e)))
+        (pscale (2 ^ P) (sigmaE g (gadget_int b n rin cols_out msize dsize dnum (acol n (tl ct)) K Sk I))) /\
+      pnorm (sigmaE g (gadget_err P b n rin cols_out msize dsize dnum (acol n (tl ct)) K Sk e)) =
+      pnorm (gadget_err P b n rin cols_out msize dsize dnum (acol n (tl ct)) K Sk e).
+Proof. exact C03_automorphism_phase_sigma_lemma. Qed.
+Print Assumptions C03_automorphism_phase_sigma.
+
+(* (8) two gadget shapes, same s_in -> s_out, one input that fits both: same plaintext image, torus distance <= env1 + env2 *)
+Theorem C03_keyswitch_shape_independent :
+  forall (P b : Z) (n rin a_size : nat) (ct : cols_t) (sk_out : list (list Z)) (s_in : nat -> list Z)
+      (msize1 dsize1 dnum1 msize2 dsize2 dnum2 : nat) (res01 res02 : cols_t) (K1 K2 : pmat) (e1 I1 e2 I2 : nat -> nat -> list Z) 
+      (env1 env2 : Z),
+    wf_cols n (S rin) a_size ct ->
+    (1 <= n)%nat ->
+    (forall s : list Z, In s sk_out -> length s = n) ->
+    (forall ci : nat, length (s_in ci) = n) ->
+    0 <= b ->
+    1 <= P ->
+    wf_pmat_in n (dnum1 * rin) (msize1 * S (length sk_out)) K1 ->
+    (1 <= dsize1)%nat ->
+    (dsize1 - 2 <= msize1)%nat ->
+    (a_size <= dnum1 * dsize1)%nat ->
+    (a_size <= msize1)%nat ->
+    (forall row ci : nat, length (e1 row ci) = n) ->
+    (forall row ci : nat, length (I1 row ci) = n) ->
+    Z.of_nat msize1 * b <= P ->
+    Z.of_nat dnum1 * Z.of_nat dsize1 * b <= P ->
+    key_rows_ok P b n rin (S (length sk_out)) msize1 dsize1 dnum1 K1 (sk_ext n sk_out) s_in e1 I1 ->
+    wf_pmat_in n (dnum2 * rin) (msize2 * S (length sk_out)) K2 ->
+    (1 <= dsize2)%nat ->
+    (dsize2 - 2 <= msize2)%nat ->
+    (a_size <= dnum2 * dsize2)%nat ->
+    (a_size <= msize2)%nat ->
+    (forall row ci : nat, length (e2 row ci) = n) ->
+    (forall row ci : nat, length (I2 row ci) = n) ->
+    Z.of_nat msize2 * b <= P ->
+    Z.of_nat dnum2 * Z.of_nat dsize2 * b <= P ->
+    key_rows_ok P b n rin (S (length sk_out)) msize2 dsize2 dnum2 K2 (sk_ext n sk_out) s_in e2 I2 ->
+    pnorm (gadget_err P b n rin (S (length sk_out)) msize1 dsize1 dnum1 (acol n (tl ct)) K1 (sk_ext n sk_out) e1) <= env1 ->
+    pnorm (gadget_err P b n rin (S (length sk_out)) msize2 dsize2 dnum2 (acol n (tl ct)) K2 (sk_ext n sk_out) e2) <= env2 ->
+    env1 + env2 < 2 ^ (P - 1) ->
+    exists ks1 ks2 : cols_t,
+      keyswitch_internal n (S (length sk_out)) msize1 res01 ct a_size dsize1 dnum1 msize1 K1 = Some ks1 /\
+      keyswitch_internal n (S (length sk_out)) msize2 res02 ct a_size dsize2 dnum2 msize2 K2 = Some ks2 /\
+      phase_val P b n sk_out ks1 =
+      padd
+        (padd (phase_in_full P b n rin a_size ct s_in)
+           (gadget_err P b n rin (S (length sk_out)) msize1 dsize1 dnum1 (acol n (tl ct)) K1 (sk_ext n sk_out) e1))
+        (pscale (2 ^ P) (gadget_int b n rin (S (length sk_out)) msize1 dsize1 dnum1 (acol n (tl ct)) K1 (sk_ext n sk_out) I1)) /\
+      phase_val P b n sk_out ks2 =
+      padd
+        (padd (phase_in_full P b n rin a_size ct s_in)
+           (gadget_err P b n rin (S (length sk_out)) msize2 dsize2 dnum2 (acol n (tl ct)) K2 (sk_ext n sk_out) e2))
+        (pscale (2 ^ P) (gadget_int b n rin (S (length sk_out)) msize2 dsize2 dnum2 (acol n (tl ct)) K2 (sk_ext n sk_out) I2)) /\
+      psub (phase_val P b n sk_out ks1) (phase_val P b n sk_out ks2) =
+      padd
+        (psub (gadget_err P b n rin (S (length sk_out)) msize1 dsize1 dnum1 (acol n (tl ct)) K1 (sk_ext n sk_out) e1)
+           (gadget_err P b n rin (S (length sk_out)) msize2 dsize2 dnum2 (acol n (tl ct)) K2 (sk_ext n sk_out) e2))
+        (pscale (2 ^ P)
+           (psub (gadget_int b n rin (S (length sk_out)) msize1 dsize1 dnum1 (acol n (tl ct)) K1 (sk_ext n sk_out) I1)
+              (gadget_int b n rin (S (length sk_out)) msize2 dsize2 dnum2 (acol n (tl ct)) K2 (sk_ext n sk_out) I2))) /\
+      tor_norm P (psub (phase_val P b n sk_out ks1) (phase_val P b n sk_out ks2)) <= env1 + env2.
+Proof. exact keyswitch_shape_independent. Qed.
+Print Assumptions C03_keyswitch_shape_independent.
+
+(* (8) Model/C03Run.decode of M 2^(P-kpt) + err + 2^P I is M when |err| < half a message step *)
+Theorem C03_decode_correct :
+  forall (P kpt : Z) (n : nat) (msg err I : list Z),
+    1 <= kpt ->
+    kpt < P ->
+    length msg = n ->
+    length err = n ->
+    length I = n ->
+    pnorm err < 2 ^ (P - kpt - 1) -> decode P kpt (padd (padd (pscale (2 ^ (P - kpt)) msg) err) (pscale (2 ^ P) I)) = map (wrap kpt) msg.
+Proof. exact decode_correct. Qed.
+Print Assumptions C03_decode_correct.
+
+(* (8) every fitting gadget shape decodes to the encrypted message *)
+Theorem C03_keyswitch_fit_decodes :
+  forall (P b kpt : Z) (n rin msize a_size dsize dnum : nat) (ct res0 : cols_t) (K : pmat) (sk_out : list (list Z))
+      (s_in : nat -> list Z) (e I : nat -> nat -> list Z) (msg e_in : list Z) (env : Z),
+    wf_cols n (S rin) a_size ct ->
+    wf_pmat_in n (dnum * rin) (msize * S (length sk_out)) K ->
+    (1 <= n)%nat ->
+    (1 <= dsize)%nat ->
+    (dsize - 2 <= msize)%nat ->
+    (a_size <= dnum * dsize)%nat ->
+    (a_size <= msize)%nat ->
+    (forall s : list Z, In s sk_out -> length s = n) ->
+    (forall ci : nat, length (s_in ci) = n) ->
+    (forall row ci : nat, length (e row ci) = n) ->
+    (forall row ci : nat, length (I row ci) = n) ->
+    0 <= b ->
+    Z.of_nat msize * b <= P ->
+    Z.of_nat dnum * Z.of_nat dsize * b <= P ->
+    key_rows_ok P b n rin (S (length sk_out)) msize dsize dnum K (sk_ext n sk_out) s_in e I ->
+    1 <= kpt < P ->
+    length msg = n ->
+    length e_in = n ->
+    phase_in_full P b n rin a_size ct s_in = padd (pscale (2 ^ (P - kpt)) msg) e_in ->
+    pnorm (gadget_err P b n rin (S (length sk_out)) msize dsize dnum (acol n (tl ct)) K (sk_ext n sk_out) e) <= env ->
+    pnorm e_in + env < 2 ^ (P - kpt - 1) ->
+    exists ks : cols_t,
+      keyswitch_internal n (S (length sk_out)) msize res0 ct a_size dsize dnum msize K = Some ks /\
+      decode P kpt (phase_val P b n sk_out ks) = map (wrap kpt) msg.
+Proof. exact keyswitch_fit_decodes. Qed.
+Print Assumptions C03_keyswitch_fit_decodes.
+
+(* (9) sample extraction: coefficient 0 of a (x) sigma_{-1}(s) is the LWE inner product *)
+Theorem C03_sample_extract_phase :
+  forall (n : nat) (a s : list Z),
+    (0 < n)%nat -> length a = n -> (length s <= n)%nat -> nth 0 (pmul a (sigmaE (-1) (s ++ zeros (n - length s)))) 0 = lwe_dot a s (length s).
+Proof. exact sample_extract_phase. Qed.
+Print Assumptions C03_sample_extract_phase.
+
+Theorem C03_rotate_selects :
+  forall (x : list Z) (idx : nat), (idx < length x)%nat -> nth 0 (monomial_mul' (- Z.of_nat idx) x) 0 = nthZ x idx.
+Proof. exact rotate_selects. Qed.
+Print Assumptions C03_rotate_selects.
+
+(* (9) lwe_from_glwe(idx) = rotate by -idx, key-switch, extract *)
+Theorem C03_lwe_from_glwe_phase :
+  forall (P : Z) (n idx : nat) (ph_in ph_rot ph_ks E I : list Z),
+    length ph_in = n ->
+    (idx < n)%nat ->
+    length E = n ->
+    length I = n ->
+    ph_rot = monomial_mul' (- Z.of_nat idx) ph_in ->
+    ph_ks = padd (padd ph_rot E) (pscale (2 ^ P) I) ->
+    nth 0 ph_ks 0 = nthZ ph_in idx + nth 0 E 0 + 2 ^ P * nth 0 I 0 /\ Z.abs (nth 0 E 0) <= pnorm E.
+Proof. exact lwe_from_glwe_phase. Qed.
+Print Assumptions C03_lwe_from_glwe_phase.
+
+Theorem C03_glwe_from_lwe_phase :
+  forall (P : Z) (n : nat) (lwe_phase : Z) (ph_emb ph_out E I : list Z),
+    (0 < n)%nat ->
+    length ph_emb = n ->
+    length E = n ->
+    length I = n ->
+    nth 0 ph_emb 0 = lwe_phase ->
+    ph_out = padd (padd ph_emb E) (pscale (2 ^ P) I) -> nth 0 ph_out 0 = lwe_phase + nth 0 E 0 + 2 ^ P * nth 0 I 0 /\ Z.abs (nth 0 E 0) <= pnorm E.
+Proof. exact glwe_from_lwe_phase. Qed.
+Print Assumptions C03_glwe_from_lwe_phase.
+
+(* (9) packing: err' <= err_a + err_b + lvl over any merge tree of depth <= L gives 2^L e0 + (2^L - 1) lvl *)
+Theorem C03_pack_error_bound :
+  forall (lvl e0 : Z) (t : mtree) (x : Z) (L : nat),
+    0 <= lvl -> 0 <= e0 -> mleaves_le e0 t -> (mdepth t <= L)%nat -> merge_err lvl t x -> x <= 2 ^ Z.of_nat L * e0 + (2 ^ Z.of_nat L - 1) * lvl.
+Proof. exact pack_error_bound. Qed.
+Print Assumptions C03_pack_error_bound.
+
+Theorem C03_pack_error_bound_fresh :
+  forall (lvl : Z) (t : mtree) (x : Z) (L : nat),
+    0 <= lvl -> mleaves_le 0 t -> (mdepth t <= L)%nat -> merge_err lvl t x -> x <= (2 ^ Z.of_nat L - 1) * lvl.
+Proof. exact pack_error_bound_fresh. Qed.
+Print Assumptions C03_pack_error_bound_fresh.
+
+(* (9) glwe_pack: slot s ends at coefficient s; streaming packer: the k-th input ends at coefficient bitrev(k) *)
+Theorem C03_pack_slot_placement :
+  forall L s : nat, (s < 2 ^ L)%nat -> pack_pos L s = (0%nat, s).
+Proof. exact pack_slot_placement. Qed.
+Print Assumptions C03_pack_slot_placement.
+
+Theorem C03_packer_slot_placement :
+  forall L k : nat, packer_pos L k = GadgetDerived.bitrev L k.
+Proof. exact packer_slot_placement. Qed.
+Print Assumptions C03_packer_slot_placement.
+
+(* (9) AUTO(a X^t, g) = -X^t AUTO(a, g) when t g = t + n (mod 2n); one merge level of pack_internal, exactly *)
+Theorem C03_sigmaE_monomial_flip :
+  forall (n : nat) (g : Z),
+    (0 < n)%nat ->
+    Z.gcd g (2 * Z.of_nat n) = 1 ->
+    forall (b : list Z) (t s : Z),
+    length b = n -> t * g = t + Z.of_nat n + s * (2 * Z.of_nat n) -> sigmaE g (monomial_mul' t b) = pneg (monomial_mul' t (sigmaE g b)).
+Proof. exact sigmaE_monomial_flip. Qed.
+Print Assumptions C03_sigmaE_monomial_flip.
+
+Theorem C03_pack_merge_level :
+  forall (n : nat) (g : Z),
+    (0 < n)%nat ->
+    Z.gcd g (2 * Z.of_nat n) = 1 ->
+    forall (a b : list Z) (t s : Z),
+    length a = n ->
+    length b = n ->
+    t * g = t + Z.of_nat n + s * (2 * Z.of_nat n) ->
+    padd (padd a (monomial_mul' t b)) (sigmaE g (psub a (monomial_mul' t b))) = padd (padd a (sigmaE g a)) (monomial_mul' t (padd b (sigmaE g b))).
+Proof. exact pack_merge_level. Qed.
+Print Assumptions C03_pack_merge_level.
+
+(* (9) trace: per-level projection (2 x_j at the fixed positions, 0 at the negated ones) *)
+Theorem C03_trace_level_coeff :
+  forall (n : nat) (g : Z),
+    (0 < n)%nat ->
+    Z.gcd g (2 * Z.of_nat n) = 1 ->
+    forall (x : list Z) (j : nat) (s : Z),
+    length x = n ->
+    (j < n)%nat ->
+    (Z.of_nat j * g = Z.of_nat j + s * (2 * Z.of_nat n) -> nth j (padd x (sigmaE g x)) 0 = 2 * nthZ x j) /\
+    (Z.of_nat j * g = Z.of_nat j + Z.of_nat n + s * (2 * Z.of_nat n) -> nth j (padd x (sigmaE g x)) 0 = 0).
+Proof. exact trace_level_coeff. Qed.
+Print Assumptions C03_trace_level_coeff.
+
+(* (9) the composed levels = sum over the generated set of Galois elements *)
+Theorem C03_trace_op_span :
+  forall n : nat,
+    (0 < n)%nat ->
+    forall gs : list Z,
+    Forall (unit2n n) gs -> forall x : list Z, length x = n -> trace_op gs x = psum_over n (fun h : Z => sigmaE h x) (galois_span gs).
+Proof. exact trace_op_span. Qed.
+Print Assumptions C03_trace_op_span.
+
+(* (9) 2^steps phase(out) = trace_op(phase(in)) + Err + 2^P I, |Err| <= steps 2^steps (rounding + key-switch envelope) *)
+Theorem C03_trace_phase :
+  forall (P : Z) (n : nat) (rho eps : Z),
+    (0 < n)%nat ->
+    forall gs x z : list Z,
+    trace_rel P n rho eps gs x z ->
+    Forall (unit2n n) gs ->
+    length x = n ->
+    exists Err I : list Z,
+      length Err = n /\
+      length I = n /\
+      length z = n /\
+      pscale (2 ^ Z.of_nat (length gs)) z = padd (padd (trace_op gs x) Err) (pscale (2 ^ P) I) /\
+      pnorm Err <= Z.of_nat (length gs) * 2 ^ Z.of_nat (length gs) * (rho + eps).
+Proof. exact trace_phase_lemma. Qed.
+Print Assumptions C03_trace_phase.
+
 (* (6) ... FFT64 family, one radix: the normalisation hypothesis is discharged by C08; remaining hypothesis = |big coefficient| <= 2^62 *)
 Theorem C03_glwe_keyswitch_phase_final_fft64 :
   forall (be P b : Z) (n rin msize a_size res_size dsize dnum : nat) (ct : cols_t) (K : pmat) (sk_out : list (list Z))
@@ -557,3 +894,12 @@ Proof. exact C03_instance_runs_lemma. Qed.
 
 Example C03_enc_body_satisfiable : enc_body_ok 8 4 2 1 1 2 2 1 ex3_K (sk_ext 2 ex3_sk) ex3_sin ex3_zero ex3_zero.
 Proof. exact enc_body_satisfiable_lemma. Qed.
+
+Example C03_trace_rel_satisfiable : trace_rel 8 2 0 0 [-1] [2; 4] [2; 0] /\ Forall (unit2n 2) [-1].
+Proof. exact trace_rel_satisfiable_lemma. Qed.
+
+Example C03_merge_err_satisfiable : merge_err 3 (MNode (MNode (MLeaf 0) (MLeaf 0)) (MLeaf 0)) 6 /\ mleaves_le 0 (MNode (MNode (MLeaf 0) (MLeaf 0)) (MLeaf 0)).
+Proof. exact merge_err_satisfiable_lemma. Qed.
+
+Example C03_sigma_flip_instance : Z.gcd 3 (2 * Z.of_nat 2) = 1 /\ 1 * 3 = 1 + Z.of_nat 2 + 0 * (2 * Z.of_nat 2).
+Proof. exact sigma_flip_instance_lemma. Qed.
